@@ -683,6 +683,10 @@ def replay(payload):
         r = training_loop_task((it[0], list(it[1]), list(it[2]), it[3], it[4]))
         print(r)
         return all(v[0] <= 1e-5 for v in r["dev"].values())
+    if isinstance(payload.get("replay"), dict) and payload["replay"].get("uhf"):
+        r = uhf_task(tuple(payload["replay"]["uhf"]))
+        print(r)
+        return "res" in r and all(abs(v["ad"] - v["fd"]) <= 1e-5 * max(abs(v["fd"]), 1.0) + 2e-6 for v in r["res"].values())
     if isinstance(payload.get("replay"), dict) and payload["replay"].get("interleaved"):
         r = interleaved_task(tuple(payload["replay"]["interleaved"]))
         print(r)
@@ -909,10 +913,88 @@ def interleavings(chk, tier, seed):
             chk.violation(dict(desc, output=sorted(bad)[0]), f"{key}: gradients change when other calculations run between forward and backward (relative): {bad}", replay={"interleaved": list(it)})
 
 
+# ------------------------------------------------------------------------------------------------ unrestricted references
+
+UHF_NAMES = ["U_ss", "U_pp", "zeta_s", "zeta_p", "beta_s", "beta_p", "g_ss", "g_sp", "g_pp", "g_p2", "h_sp", "alpha"]
+
+
+def uhf_task(item):
+    """Open-shell molecule under an unrestricted reference, every name of UHF_NAMES supplied as a caller leaf tensor:
+    the directional derivative of Etot and of the (alpha + beta) gap along a species-wise direction (all atoms of an element
+    move together, so symmetry-degenerate levels stay degenerate and differentiable), by reverse mode with scf_backward
+    1 and 2, against a central finite difference of the same code."""
+    from seqm.basics import Energy
+    from seqm.Molecule import Molecule
+
+    method, molname, sb, seed = item
+    mol = M.apply(M.get(molname), M.generic_rot(seed))
+    Z = list(mol["species"])
+    base = sp.make_params(method, "adaptive", EPS, uhf=True)
+    m0, _ = sp.build([mol], dict(base))
+    tab = {nm: m0.parameters[nm].detach().clone() for nm in UHF_NAMES}
+    w = torch.tensor([PAT_A[(z + int(seed)) % 7] for z in Z], dtype=torch.float64)
+    dirs = {nm: (float(tab[nm].abs().max()) or 1.0) * w for nm in UHF_NAMES}
+
+    def evaluate(vals, grad):
+        params = sp.make_params(method, "adaptive", EPS, uhf=True, scf_backward=sb, learned=list(UHF_NAMES))
+        lp = {nm: vals[nm].clone().requires_grad_(grad) for nm in UHF_NAMES}
+        molecule, _ = sp.build([mol], params, learned=lp)
+        molecule.verbose = False
+        en = Energy(params)
+        with torch.set_grad_enabled(True):
+            Hf, Etot, Eelec, Enuc, Eiso, EnucAB, e_gap, e, P, charge, nc = en(molecule, learned_parameters=lp, all_terms=True)
+        return {"Etot": Etot.sum(), "gap": e_gap.sum()}, lp, bool(nc.any())
+
+    outs, lp, nc = evaluate(tab, True)
+    if nc:
+        return {"excluded": "scf not converged"}
+    res = {}
+    for oname, val in outs.items():
+        g = torch.autograd.grad(val, [lp[nm] for nm in UHF_NAMES], retain_graph=True, allow_unused=True)
+        for nm, gi in zip(UHF_NAMES, g):
+            res[(oname, nm)] = {"ad": float((gi * dirs[nm]).sum()) if gi is not None else 0.0}  # unused = does not depend on it
+    h = 2e-5
+    for nm in UHF_NAMES:
+        vp_ = {k: v.clone() for k, v in tab.items()}
+        vm_ = {k: v.clone() for k, v in tab.items()}
+        vp_[nm] = tab[nm] + h * dirs[nm]
+        vm_[nm] = tab[nm] - h * dirs[nm]
+        with torch.no_grad():
+            op, _, _ = evaluate(vp_, False)
+            om, _, _ = evaluate(vm_, False)
+        for oname in outs:
+            res[(oname, nm)]["fd"] = float((op[oname] - om[oname]) / (2 * h))
+    return {"res": {f"{a}|{b}": v for (a, b), v in res.items()}}
+
+
+def uhf_section(chk, tier, seed):
+    mols = ["CH3", "NH2"] if tier == "quick" else ["CH3", "NH2", "OH", "CH2", "O2"]
+    items = [(meth, m, sb, seed) for meth in (["AM1"] if tier == "quick" else ["MNDO", "AM1", "PM3"]) for m in mols for sb in (1, 2)]
+    res = pmap(uhf_task, items, chunk=1, timeout=1200, progress="C07 unrestricted references")
+    for it, r in zip(items, res):
+        key0 = f"uhf|{it[0]}|{it[1]}|sb={it[2]}"
+        desc0 = {"part": "uhf", "method": it[0], "molecule": it[1], "scf_backward": it[2]}
+        if is_timeout(r) or is_error(r):
+            chk.violation(desc0, f"{key0}: {str(r)[:300]}", replay={"uhf": list(it)})
+            continue
+        if "excluded" in r:
+            chk.excluded += 1
+            continue
+        for k, v in r["res"].items():
+            oname, nm = k.split("|")
+            fd, ad = v["fd"], v["ad"]
+            chk.case(f"{key0}|{oname}|{nm}", nontrivial=abs(fd) > 1e-6, outcome=f"{fd:.3e}")
+            # healthy tree (AM1 CH3/NH2, both modes): |ad - fd| <= 3e-7 absolute on derivatives of size 1e-2 .. 1e2
+            tol = 1e-5 * max(abs(fd), 1.0) + 2e-6
+            if ad is None or abs(ad - fd) > tol:
+                chk.violation(dict(desc0, output=oname, name=nm), f"{key0}: d{oname}/d{nm} along the species-wise direction: reverse mode {ad} vs finite difference {fd:.8g} (tolerance {tol:.1e})", replay={"uhf": list(it)})
+
+
 def run(chk, tier, seed):
     import vp
 
     vp.warm()
+    uhf_section(chk, tier, seed)
     interleavings(chk, tier, seed)
     training_loops(chk, tier, seed)
     setups, rows = lattice(tier, seed)
